@@ -245,7 +245,7 @@ func TestZzVerifReplay(t *testing.T) {
 	ovFile := filepath.Join(tmp, "overlay.json")
 	os.WriteFile(ovFile, ovb, 0o644)
 	cmd := exec.Command("go", "test", "-v", "-vet=off", "-count=1", "-tags=verif", "-overlay", ovFile,
-		"-run", "^TestZzVerifReplay$", "-timeout", "300s", pkgPath)
+		"-run", "^TestZzVerifReplay$", "-timeout", "120s", pkgPath)
 	cmd.Dir = verifRoot
 	cmd.Env = append(os.Environ(), "GOFLAGS=-mod=mod", "GOPROXY=off", "GOSUMDB=off", "GOTOOLCHAIN=local",
 		"VERIF_REPLAY="+replayPath)
